@@ -19,6 +19,32 @@
 (*   "samefile"  the repaired code: if the open file is still the file at the   *)
 (*               path (os.SameFile) the signal is stale and ignored; otherwise  *)
 (*               closeFile() and try os.Open at once                            *)
+(*                                                                              *)
+(* NAMES.  The watch is on a DIRECTORY; every kernel event carries the name of   *)
+(* the entry it is about, and the watcher goroutine keeps only the events whose *)
+(* name is the one it follows.  Event names are name CLASSES relative to that    *)
+(* name: "self" (equal), "suf" (ends with it: webapp.log next to app.log),       *)
+(* "pre" (begins with it: app.log.1, app.log.bak), "oth" (unrelated), "tgt" (the *)
+(* own name of the file a symbolic link leads to).  NameFilter is the test:      *)
+(*   "base"    base names are equal (the code)                                   *)
+(*   "suffix"  the event's name ends with the followed name     (control)        *)
+(*   "prefix"  the event's name begins with the followed name   (control)        *)
+(*   "any"     no test at all                                    (control)        *)
+(* The environment also works on the SIBLINGS (Other1: create, append, rename    *)
+(* to another sibling name, remove); law OthersInvisible: no event of another    *)
+(* path ever becomes a signal of the reader, so sibling activity refines         *)
+(* Follow!EnvOther (nothing changes) - with "suffix" the removal of a sibling    *)
+(* ends a plain follow although the followed file stays in place.                *)
+(*                                                                              *)
+(* PATH KIND.  PathKind = "file" | "link-same" | "link-other": the followed path *)
+(* is the file's own name, or a symbolic link to a file in the same / another    *)
+(* directory.  The kernel reports changes of a file under the file's OWN name in *)
+(* the file's OWN directory.  Resolve = TRUE: NewNotify follows what the link    *)
+(* leads to (watched directory and name are the file's: the repaired code);      *)
+(* Resolve = FALSE: it watches the link's directory for the link's name - the    *)
+(* file's events arrive under another name ("tgt", same directory) or not at all *)
+(* (other directory): every append after the first read-until-empty is lost      *)
+(* (control, the defect found on the unchanged tree).                            *)
 EXTENDS Bytes, TLC
 
 CONSTANTS Reopen, TailMode,     \* BOOLEAN
@@ -26,17 +52,38 @@ CONSTANTS Reopen, TailMode,     \* BOOLEAN
           AppLens,              \* set of lengths an Append may have
           MaxAppends, MaxRemoves, MaxCreates,
           BufSize,              \* len(buf) of the Read calls
-          DeleteBranch
+          DeleteBranch,
+          NameFilter,           \* "base" | "suffix" | "prefix" | "any"
+          PathKind, Resolve,    \* "file" | "link-same" | "link-other"; BOOLEAN
+          Sibs, MaxOthers       \* sibling name classes (subset of {"suf", "pre", "oth"}), budget of sibling operations
+
+ASSUME NameFilter \in {"base", "suffix", "prefix", "any"} /\ PathKind \in {"file", "link-same", "link-other"}
+ASSUME Sibs \subseteq {"suf", "pre", "oth"}
 
 VARIABLES mode, files, cur, start, delivered, ended, fresh, dom,   \* Follow.tla
           f, pos, pc, closed, evW, evD,                            \* reader
           kq, ech,                                                 \* kernel queue, Events channel
-          nA, nR, nC, nb                                           \* budgets, next byte value
+          nA, nR, nC, nb,                                          \* budgets, next byte value
+          sibs, nO,                                                \* siblings that exist now, budget
+          leak                                                     \* ghost: an event of another path was taken for the followed one
 
 A == INSTANCE Follow
 
-envv  == <<files, cur, kq, nA, nR, nC, nb, dom>>
-vars  == <<mode, files, cur, start, delivered, ended, fresh, dom, f, pos, pc, closed, evW, evD, kq, ech, nA, nR, nC, nb>>
+vars  == <<mode, files, cur, start, delivered, ended, fresh, dom, f, pos, pc, closed, evW, evD, kq, ech, nA, nR, nC, nb,
+           sibs, nO, leak>>
+
+NoEv == [op |-> "none", name |-> "none"]
+\* the event the kernel queues for an operation on the followed FILE (none when the watched directory is not the file's)
+FileEvName    == IF PathKind = "file" \/ Resolve THEN "self" ELSE "tgt"
+FileEvVisible == PathKind # "link-other" \/ Resolve
+QFile(op) == IF FileEvVisible THEN Append(kq, [op |-> op, name |-> FileEvName]) ELSE kq
+\* the watcher's test "is this event about the file I follow?"
+Match(n) == CASE NameFilter = "base"   -> n = "self"
+              [] NameFilter = "suffix" -> n \in {"self", "suf"}
+              [] NameFilter = "prefix" -> n \in {"self", "pre"}
+              [] NameFilter = "any"    -> TRUE
+\* does the entry an event names exist now (fsnotify drops write/create events of entries that are gone)
+Exists(n) == IF n \in {"self", "tgt"} THEN cur # 0 ELSE n \in sibs
 
 \* contents: the initial file holds 65, 66, ...; appended bytes are 97, 98, ... in order of writing
 Run(from, n) == [i \in 1..n |-> from + i - 1]
@@ -45,8 +92,10 @@ Init ==
   /\ A!AInit([poll |-> FALSE, reopen |-> Reopen, tail |-> TailMode], Run(65, InitLen))
   /\ f = 1 /\ pos = start            \* NewNotify opened the file; Drain() seeked to the end with tail
   /\ pc = "read" /\ closed = FALSE /\ evW = FALSE /\ evD = FALSE
-  /\ kq = <<>> /\ ech = "none"
+  /\ kq = <<>>
   /\ nA = 0 /\ nR = 0 /\ nC = 0 /\ nb = 97
+  /\ sibs = Sibs /\ nO = 0 /\ leak = FALSE      \* the siblings are there when following starts
+  /\ ech = NoEv
 
 ------------------------------------------------------------------------------
 \* environment
@@ -56,41 +105,57 @@ Append1 ==
        /\ A!EnvAppend(Run(nb, n))
        /\ nb' = nb + n
   /\ nA' = nA + 1
-  /\ kq' = Append(kq, "write")
-  /\ UNCHANGED <<f, pos, pc, closed, evW, evD, ech, nR, nC>>
+  /\ kq' = QFile("write")
+  /\ UNCHANGED <<f, pos, pc, closed, evW, evD, ech, nR, nC, sibs, nO, leak>>
 
 Remove1 ==
   /\ nR < MaxRemoves
   /\ A!Drained                      \* the property's precondition, also outside dom
   /\ A!EnvRemove
   /\ nR' = nR + 1
-  /\ kq' = Append(kq, "remove")
-  /\ UNCHANGED <<f, pos, pc, closed, evW, evD, ech, nA, nC, nb>>
+  /\ kq' = QFile("remove")
+  /\ UNCHANGED <<f, pos, pc, closed, evW, evD, ech, nA, nC, nb, sibs, nO, leak>>
 
 Create1 ==
   /\ nC < MaxCreates
   /\ A!EnvCreate
   /\ nC' = nC + 1
-  /\ kq' = Append(kq, "create")
-  /\ UNCHANGED <<f, pos, pc, closed, evW, evD, ech, nA, nR, nb>>
+  /\ kq' = QFile("create")
+  /\ UNCHANGED <<f, pos, pc, closed, evW, evD, ech, nA, nR, nb, sibs, nO, leak>>
 
-Env == Append1 \/ Remove1 \/ Create1
+\* an operation on a sibling: the kernel reports it to the watch of the directory under the sibling's name
+Other1 ==
+  /\ nO < MaxOthers
+  /\ A!EnvOther
+  /\ \E s \in Sibs :
+       \/ /\ s \in sibs /\ kq' = Append(kq, [op |-> "write", name |-> s]) /\ UNCHANGED sibs          \* appended to
+       \/ /\ s \in sibs /\ kq' = Append(kq, [op |-> "remove", name |-> s]) /\ sibs' = sibs \ {s}     \* removed
+       \/ /\ s \notin sibs /\ kq' = Append(kq, [op |-> "create", name |-> s]) /\ sibs' = sibs \cup {s}
+       \/ \E t \in Sibs \ sibs :                                                                      \* renamed to a free sibling name
+            /\ s \in sibs /\ sibs' = (sibs \ {s}) \cup {t}
+            /\ kq' = kq \o <<[op |-> "rename", name |-> s], [op |-> "create", name |-> t]>>
+  /\ nO' = nO + 1
+  /\ UNCHANGED <<f, pos, pc, closed, evW, evD, ech, nA, nR, nC, nb, leak>>
+
+Env == Append1 \/ Remove1 \/ Create1 \/ Other1
 
 ------------------------------------------------------------------------------
 \* fsnotify readEvents goroutine
 KDeq ==
-  /\ kq # <<>> /\ ech = "none"
+  /\ kq # <<>> /\ ech = NoEv
   /\ kq' = Tail(kq)
-  /\ ech' = IF Head(kq) \in {"write", "create"} /\ cur = 0 THEN "none" ELSE Head(kq)
-  /\ UNCHANGED <<mode, files, cur, start, delivered, ended, fresh, dom, f, pos, pc, closed, evW, evD, nA, nR, nC, nb>>
+  /\ ech' = IF Head(kq).op \in {"write", "create"} /\ ~Exists(Head(kq).name) THEN NoEv ELSE Head(kq)
+  /\ UNCHANGED <<mode, files, cur, start, delivered, ended, fresh, dom, f, pos, pc, closed, evW, evD, nA, nR, nC, nb, sibs, nO, leak>>
 
-\* rare's watcher goroutine: writeSignalNonBlock
+\* rare's watcher goroutine: the name test, then writeSignalNonBlock (a rename is no case of the switch)
 WSig ==
-  /\ ech # "none"
-  /\ ech' = "none"
-  /\ IF ech = "remove" THEN evD' = TRUE /\ UNCHANGED evW
-                       ELSE evW' = TRUE /\ UNCHANGED evD
-  /\ UNCHANGED <<mode, files, cur, start, delivered, ended, fresh, dom, f, pos, pc, closed, kq, nA, nR, nC, nb>>
+  /\ ech # NoEv
+  /\ ech' = NoEv
+  /\ IF ~Match(ech.name) \/ ech.op = "rename" THEN UNCHANGED <<evW, evD, leak>>
+     ELSE /\ leak' = (leak \/ ech.name \notin {"self", "tgt"})
+          /\ IF ech.op = "remove" THEN evD' = TRUE /\ UNCHANGED evW
+                                  ELSE evW' = TRUE /\ UNCHANGED evD
+  /\ UNCHANGED <<mode, files, cur, start, delivered, ended, fresh, dom, f, pos, pc, closed, kq, nA, nR, nC, nb, sibs, nO>>
 
 Watcher == KDeq \/ WSig
 
@@ -109,7 +174,7 @@ RRead ==
      ELSE
        /\ pc' = "select"
        /\ UNCHANGED <<delivered, fresh, pos>>
-  /\ UNCHANGED <<mode, files, cur, start, ended, dom, f, closed, evW, evD, kq, ech, nA, nR, nC, nb>>
+  /\ UNCHANGED <<mode, files, cur, start, ended, dom, f, closed, evW, evD, kq, ech, nA, nR, nC, nb, sibs, nO, leak>>
 
 \* os.Open(s.filename): the file at the path now, from offset 0; failure leaves s.f nil
 OpenNow == f' = cur /\ pos' = 0
@@ -120,7 +185,7 @@ RSelW ==
   /\ evW' = FALSE
   /\ IF f = 0 /\ Reopen THEN OpenNow ELSE UNCHANGED <<f, pos>>
   /\ pc' = "read"
-  /\ UNCHANGED <<mode, files, cur, start, delivered, ended, fresh, dom, closed, evD, kq, ech, nA, nR, nC, nb>>
+  /\ UNCHANGED <<mode, files, cur, start, delivered, ended, fresh, dom, closed, evD, kq, ech, nA, nR, nC, nb, sibs, nO, leak>>
 
 \* case <-s.eventDelete
 RSelD ==
@@ -136,14 +201,14 @@ RSelD ==
        /\ UNCHANGED <<closed, ended>>
      ELSE
        /\ closed' = TRUE /\ ended' = TRUE /\ f' = 0 /\ pos' = 0 /\ pc' = "done"
-  /\ UNCHANGED <<mode, files, cur, start, delivered, fresh, dom, evW, kq, ech, nA, nR, nC, nb>>
+  /\ UNCHANGED <<mode, files, cur, start, delivered, fresh, dom, evW, kq, ech, nA, nR, nC, nb, sibs, nO, leak>>
 
 \* second half of the repaired delete branch: os.Open after closeFile()
 RReopen ==
   /\ pc = "reopen"
   /\ OpenNow
   /\ pc' = "read"
-  /\ UNCHANGED <<mode, files, cur, start, delivered, ended, fresh, dom, closed, evW, evD, kq, ech, nA, nR, nC, nb>>
+  /\ UNCHANGED <<mode, files, cur, start, delivered, ended, fresh, dom, closed, evW, evD, kq, ech, nA, nR, nC, nb, sibs, nO, leak>>
 
 Reader == RRead \/ RSelW \/ RSelD \/ RReopen
 
@@ -155,13 +220,16 @@ Spec == Init /\ [][Next]_vars /\ WF_vars(Reader) /\ WF_vars(Watcher)
 TypeOK ==
   /\ f \in 0..Len(files) /\ cur \in 0..Len(files) /\ pos >= 0
   /\ pc \in {"read", "select", "reopen", "done"}
-  /\ ech \in {"none", "write", "create", "remove"}
+  /\ ech.op \in {"none", "write", "create", "remove", "rename"}
+  /\ sibs \subseteq Sibs
 PrefixOK   == A!PrefixOK
 NoEarlyEnd == A!NoEarlyEnd
 NoDomLoss  == dom                    \* inotify mode has no side condition
 Refines    == A!ASafe
 Live       == A!Live
 \* a blocked reader with nothing pending is only acceptable when nothing is owed
-Blocked    == pc = "select" /\ ~evW /\ ~evD /\ kq = <<>> /\ ech = "none"
+Blocked    == pc = "select" /\ ~evW /\ ~evD /\ kq = <<>> /\ ech = NoEv
 NoLostWakeup == Blocked => A!Complete
+\* events on other paths change nothing: no signal of the reader ever stems from an event of another path
+OthersInvisible == ~leak
 =============================================================================
